@@ -239,12 +239,14 @@ prop("C31",
 
 
 prop("C19",
-     units=["numsign"],
+     units=["numsign", "numparse"],
      level="proof",
-     claim="sign slice only: every accepting path of the `-<currency><number>` case of parse_formatted_number stores the negated magnitude, and the "
+     claim="recognition slice (parse_number, the character scanner behind every typed number, verbatim up to the final str::parse): a text is accepted only if its group separators are "
+           "correctly placed — each after at least one digit, followed by whole groups of three digits (at least one), never two in a row (well_grouped) — and only if the scan "
+           "consumed the whole text; what is handed to str::parse::<f64> consists of digits, '.', 'e' and signs only, whatever the locale's separators are. Sign slice: every accepting path of the `-<currency><number>` case of parse_formatted_number stores the negated magnitude, and the "
            "`<currency><number>` case stores the magnitude as parsed",
      assumptions=["parse_number (decimal text -> f64) is a stub returning an opaque magnitude", "R: unary minus on f64 is read as a shim with an uninterpreted negation relation"],
-     residual="everything else in C19: which texts are recognised as numbers, the value of the digits, group separators, percent scaling, dates, the format chosen")
+     residual="the value of the digits (str::parse::<f64>), the sign multiplication, percent scaling, dates, the format chosen, currency prefixes other than the sign case")
 
 
 prop("C30",
